@@ -62,6 +62,26 @@ def families(tier, rng):
     return fam
 
 
+SLOW_USERS = [
+    {"id": "u1", "login": "u1", "pw": "pw1", "max": 0, "perms": [], "home": [], "base": ["A"]},
+    {"id": "u3", "login": "u3", "pw": "pw3", "max": 0, "perms": [], "home": [], "base": ["B"]},
+    {"id": "u2", "login": "u2", "pw": "", "max": 0, "perms": [], "home": ["h"], "base": ["B"]},
+]
+
+
+def slow_auth_sessions():
+    """The password check takes a few loop iterations (a user manager that awaits) and USER arrives again meanwhile: the
+    pending PASS was sent for the previous account and authorises nobody else."""
+    out = []
+    for first, pw in (("u1", "pw1"), ("u1", "nope"), ("u3", "pw3")):
+        for second in ("u3", "u1", "u2", "nobody"):
+            for gap in (0, 1, 2, 3, 5, 9):
+                st = [["connect", 1], ["send", 1, "USER " + first], ["nq", ["send", 1, "PASS " + pw]], ["iter", gap], ["nq", ["send", 1, "USER " + second]],
+                      ["tick", 0], ["send", 1, "PWD"], ["send", 1, "MLST f"], ["send", 1, "PASS pw3"], ["send", 1, "PWD"]]
+                out.append(st)
+    return out
+
+
 def twin_sessions():
     """Two control sessions, one of them not (or not yet, or no longer) logged in, sending the same command in the same instant -
     in both orders, and one to three event-loop iterations apart."""
@@ -97,6 +117,9 @@ def run(tier, seed):
     for order, tag in (([2, 0, 1], "anon-first"), ([0, 2, 1], "anon-middle")):
         cfg3 = gen.std_cfg(ns=1, users=[gen.STD_USERS[i] for i in order])
         corecheck.validate(chk, cfg3, gen.STD_TREE, scheds[: len(KEYS) + 1] + scheds[len(KEYS) + 1: len(KEYS) ** 2: 7] + parked[::3], label="hist:" + tag)
+    sl = slow_auth_sessions()
+    for k in (1, 4):
+        corecheck.validate(chk, gen.std_cfg(ns=1, users=SLOW_USERS, slow_auth=k), gen.STD_TREE, sl, label="slow-auth:%d" % k)
     tw = twin_sessions()
     corecheck.validate(chk, gen.std_cfg(ns=2, users=[u for u in gen.STD_USERS if u["id"] != "anon"]), gen.STD_TREE, tw if tier != "quick" else tw[::2], label="twins")
     chk.cov["rule"] = ("all command histories of length <= 2 and seeded ones of length 3..6 over %d command kinds (every login "
